@@ -2,6 +2,12 @@ module verif
 
 go 1.23.4
 
-require github.com/gcash/bchutil v0.0.0
+require (
+	github.com/gcash/bchd v0.20.0
+	github.com/gcash/bchutil v0.0.0
+	golang.org/x/crypto v0.32.0
+)
+
+require github.com/dchest/siphash v1.2.3 // indirect
 
 replace github.com/gcash/bchutil => /repo
